@@ -40,6 +40,18 @@ type c10Layout struct {
 	Files map[string]string // relative path -> content
 	Lint  []string          // workflow files that are candidates for linting (relative paths)
 	Cwd   string            // working directory of the linter, relative to the scratch root ("" = the root)
+	// Symlinks are created after Files: link path -> target (relative to the link's directory)
+	Symlinks map[string]string
+	// Clean lists probe workflows which use only their own repository's label, variable, local
+	// action and reusable workflow correctly: they have no diagnostic iff they are attributed to
+	// the repository that contains them
+	Clean  []string
+	Traits []string
+}
+
+func c10Probe(tag string) string {
+	return "on: push\njobs:\n  own:\n    runs-on: [self-hosted, lbl-" + tag + "]\n    steps:\n      - run: echo ${{ vars.VAR_" + tag + " }}\n      - id: a\n        uses: ./act\n        with:\n          in_" + tag + ": x\n      - run: echo ${{ steps.a.outputs.out_" + tag + " }}\n" +
+		"  call:\n    uses: ./.github/workflows/reusable.yml\n    with:\n      rin_" + tag + ": x\n    secrets:\n      sec_" + tag + ": ${{ secrets.S }}\n  after:\n    needs: [call]\n    runs-on: ubuntu-latest\n    steps:\n      - run: echo ${{ needs.call.outputs.rout_" + tag + " }}\n"
 }
 
 func c10Reusable(tag string) string {
@@ -119,19 +131,51 @@ func c10Workflow(r *Rand, tag string, inRepo bool) string {
 }
 
 func c10AddRepo(l *c10Layout, r *Rand, dir, tag string, nwf int, withConfig bool) {
-	l.Files[filepath.Join(dir, ".git", "HEAD")] = "ref: refs/heads/main\n"
+	c10AddRepoGit(l, r, dir, tag, nwf, withConfig, r.Chance(1, 4))
+}
+
+// c10AddRepoGit: gitFile makes ".git" a regular file ("gitdir: ..."), as in a linked worktree or a
+// submodule, instead of a directory.
+func c10AddRepoGit(l *c10Layout, r *Rand, dir, tag string, nwf int, withConfig, gitFile bool) {
+	if gitFile {
+		l.Files[filepath.Join(dir, ".git")] = "gitdir: /nonexistent/.git/modules/" + tag + "\n"
+		l.Traits = append(l.Traits, "git-file")
+	} else {
+		l.Files[filepath.Join(dir, ".git", "HEAD")] = "ref: refs/heads/main\n"
+	}
 	if withConfig {
 		l.Files[filepath.Join(dir, ".github", "actionlint.yaml")] = c10Config(tag)
 	}
-	l.Files[filepath.Join(dir, "act", "action.yml")] = c10Action(tag)
+	if l.Symlinks == nil {
+		l.Symlinks = map[string]string{}
+	}
+	if r.Chance(1, 5) { // the action's metadata file is a symbolic link
+		l.Files[filepath.Join(dir, "shared", "action-target.yml")] = c10Action(tag)
+		l.Symlinks[filepath.Join(dir, "act", "action.yml")] = filepath.Join("..", "shared", "action-target.yml")
+		l.Traits = append(l.Traits, "symlinked-action")
+	} else {
+		l.Files[filepath.Join(dir, "act", "action.yml")] = c10Action(tag)
+	}
 	l.Files[filepath.Join(dir, "act", "index.js")] = "\n"
 	reusable := filepath.Join(dir, ".github", "workflows", "reusable.yml")
-	l.Files[reusable] = c10Reusable(tag)
+	if r.Chance(1, 4) { // the called workflow is a symbolic link to a file elsewhere in the repository
+		l.Files[filepath.Join(dir, "shared", "reusable-target.yml")] = c10Reusable(tag)
+		l.Symlinks[reusable] = filepath.Join("..", "..", "shared", "reusable-target.yml")
+		l.Traits = append(l.Traits, "symlinked-callee")
+	} else {
+		l.Files[reusable] = c10Reusable(tag)
+	}
 	l.Lint = append(l.Lint, reusable)
 	for i := 0; i < nwf; i++ {
 		p := filepath.Join(dir, ".github", "workflows", fmt.Sprintf("w%d.yml", i))
 		l.Files[p] = c10Workflow(r, tag, true)
 		l.Lint = append(l.Lint, p)
+	}
+	if withConfig {
+		p := filepath.Join(dir, ".github", "workflows", "probe.yml")
+		l.Files[p] = c10Probe(tag)
+		l.Lint = append(l.Lint, p)
+		l.Clean = append(l.Clean, p)
 	}
 }
 
@@ -152,7 +196,11 @@ func c10GenLayout(r *Rand, idx int) *c10Layout {
 		c10AddRepo(l, r, "repo2", "p3", 1, true)
 	case "nested-repos":
 		c10AddRepo(l, r, "outer", "out", r.Range(1, 2), true)
-		c10AddRepo(l, r, filepath.Join("outer", "sub", "inner"), "inn", r.Range(1, 2), true)
+		innerGitFile := r.Chance(1, 2) // a submodule: ".git" of the inner repository is a file
+		if innerGitFile {
+			l.Traits = append(l.Traits, "git-file-nested-inner")
+		}
+		c10AddRepoGit(l, r, filepath.Join("outer", "sub", "inner"), "inn", r.Range(1, 2), true, innerGitFile)
 	case "repo-and-loose-files":
 		c10AddRepo(l, r, "proj", "pj", r.Range(1, 2), true)
 		for i := 0; i < 2; i++ {
@@ -211,8 +259,18 @@ func c10IsolationCase(out *workerOut, r *Rand, idx int, root, tier string) {
 	lay := c10GenLayout(r, idx)
 	os.MkdirAll(root, 0o755)
 	writeFiles(root, lay.Files)
+	for link, target := range lay.Symlinks {
+		os.MkdirAll(filepath.Dir(filepath.Join(root, link)), 0o755)
+		if err := os.Symlink(target, filepath.Join(root, link)); err != nil {
+			out.viol(idx, "C10:harness", "symlink failed: "+err.Error(), nil)
+			return
+		}
+	}
+	for _, t := range lay.Traits {
+		out.count("layout_trait_"+t, 1)
+	}
 	detail := func(extra map[string]interface{}) map[string]interface{} {
-		d := map[string]interface{}{"layout": lay.Name, "files": lay.Files}
+		d := map[string]interface{}{"layout": lay.Name, "files": lay.Files, "symlinks": lay.Symlinks, "traits": lay.Traits}
 		for k, v := range extra {
 			d[k] = v
 		}
@@ -240,6 +298,16 @@ func c10IsolationCase(out *workerOut, r *Rand, idx int, root, tier string) {
 			ks = append(ks, c10Key(e))
 		}
 		alone[f] = ks
+	}
+	// attribution, absolutely: a probe workflow is clean iff it was checked with the configuration,
+	// the local action and the reusable workflow of the repository that contains it
+	for _, f := range lay.Clean {
+		if len(alone[f]) > 0 {
+			out.viol(idx, "C10:attribution:"+lay.Name+":probe-of-own-repository-not-clean:"+c10MsgClass(alone[f][0]), fmt.Sprintf("file %s uses only its own repository's label, variable, local action and reusable workflow, yet linted alone it gets diagnostics (layout %s, traits %v): it was not checked against the repository that contains it", f, lay.Name, lay.Traits),
+				detail(map[string]interface{}{"file": f, "alone": alone[f]}))
+			return
+		}
+		out.count("clean_probes_confirmed", 1)
 	}
 	// config hashes of every repository (explicit Project objects for the shared-config check)
 	nvar := 6
@@ -400,8 +468,11 @@ func c10RepoDirs(l *c10Layout) []string {
 	seen := map[string]bool{}
 	var out []string
 	for p := range l.Files {
-		if strings.HasSuffix(p, filepath.Join(".git", "HEAD")) {
+		if strings.HasSuffix(p, filepath.Join(".git", "HEAD")) || filepath.Base(p) == ".git" {
 			d := filepath.Dir(filepath.Dir(p))
+			if filepath.Base(p) == ".git" {
+				d = filepath.Dir(p)
+			}
 			if !seen[d] {
 				seen[d] = true
 				out = append(out, d)
@@ -634,6 +705,14 @@ func runC10(r *Run) {
 	}
 	if r.SetLen("check_begin_orders") < 10 {
 		r.Inconclusive("too few distinct file start orders observed")
+	}
+	for _, t := range []string{"git-file", "git-file-nested-inner", "symlinked-callee", "symlinked-action"} {
+		if r.Counter("layout_trait_"+t) == 0 {
+			r.Inconclusive("no layout with the trait " + t + " was generated")
+		}
+	}
+	if r.Counter("clean_probes_confirmed") < 50 {
+		r.Inconclusive(fmt.Sprintf("too few attribution probes confirmed (%d)", r.Counter("clean_probes_confirmed")))
 	}
 	if r.Counter("tasks_under_race_build") == 0 {
 		r.Inconclusive("no workload ran under the race detector")
